@@ -532,3 +532,47 @@ Proof.
         assert (L4 : is_lead4 (code a) = true) by (rewrite lead4_range; apply rng_spec; lia).
         pose proof (dec4_table a b c d) as T. rewrite H, L4 in T. rewrite L2, L3, L4, T. congruence.
 Qed.
+
+(* the value delivered for a well-formed character is the scalar value the RFC 3629 table assigns, and exactly the
+   character's bytes are consumed; an ASCII byte is delivered as itself *)
+Definition scalar_of (e : list byte) : N :=
+  match e with
+  | [a; b] => scalar2 a b
+  | [a; b; c] => scalar3 a b c
+  | [a; b; c; d] => scalar4 a b c d
+  | _ => 0
+  end.
+
+Theorem utf8_next_value e r : wf_nonascii e -> utf8_next (e ++ r) = Some (scalar_of e, r).
+Proof.
+  intros He. destruct He as [a b H | a b c H | a b c d H]; cbn [app utf8_next scalar_of].
+  - pose proof H as H'. unfold wf2b in H'. apply andb_true_iff in H' as (Ha & _). apply rng_spec in Ha.
+    destruct (N.ltb_spec (code a) 128); [lia|].
+    assert (L2 : is_lead2 (code a) = true) by (rewrite lead2_range; apply rng_spec; lia).
+    pose proof (dec2_table a b) as T. rewrite H, L2 in T. rewrite L2, T. reflexivity.
+  - pose proof H as H'. unfold wf3b in H'. apply andb_true_iff in H' as (Ha & _).
+    rewrite !orb_true_iff, !andb_true_iff, !rng_spec in Ha.
+    destruct (N.ltb_spec (code a) 128); [lia|].
+    assert (L2 : is_lead2 (code a) = false) by (rewrite lead2_range; apply rng_false; lia).
+    assert (L3 : is_lead3 (code a) = true) by (rewrite lead3_range; apply rng_spec; lia).
+    pose proof (dec3_table a b c) as T. rewrite H, L3 in T. rewrite L2, L3, T. reflexivity.
+  - pose proof H as H'. unfold wf4b in H'. rewrite !andb_true_iff in H'. destruct H' as ((Ha & _) & _).
+    rewrite !orb_true_iff, !andb_true_iff, !rng_spec in Ha.
+    destruct (N.ltb_spec (code a) 128); [lia|].
+    assert (L2 : is_lead2 (code a) = false) by (rewrite lead2_range; apply rng_false; lia).
+    assert (L3 : is_lead3 (code a) = false) by (rewrite lead3_range; apply rng_false; lia).
+    assert (L4 : is_lead4 (code a) = true) by (rewrite lead4_range; apply rng_spec; lia).
+    pose proof (dec4_table a b c d) as T. rewrite H, L4 in T. rewrite L2, L3, L4, T. reflexivity.
+Qed.
+
+Lemma utf8_next_ascii b r : code b < 128 -> utf8_next (b :: r) = Some (code b, r).
+Proof. intros H. cbn [utf8_next]. destruct (N.ltb_spec (code b) 128); [reflexivity|lia]. Qed.
+
+(* the scalar values are the ones of the Unicode code space minus the surrogates: 128..0x10FFFF *)
+Lemma scalar_of_range e : wf_nonascii e -> 128 <= scalar_of e <= 1114111 /\ ~ (55296 <= scalar_of e <= 57343).
+Proof.
+  intros He. destruct He as [a b H | a b c H | a b c d H]; cbn [scalar_of].
+  - unfold wf2b in H. rewrite !andb_true_iff, !rng_spec in H. unfold scalar2. lia.
+  - unfold wf3b in H. rewrite !andb_true_iff, !orb_true_iff, !andb_true_iff, !rng_spec in H. unfold scalar3. lia.
+  - unfold wf4b in H. rewrite !andb_true_iff, !orb_true_iff, !andb_true_iff, !rng_spec in H. unfold scalar4. lia.
+Qed.
